@@ -148,7 +148,8 @@ INLINE_RULE_FUNCS = [("markdown_it.rules_inline.emphasis", "tokenize", "emphasis
                      ("markdown_it.rules_inline.backticks", "backtick", "backticks", "contracts.inline2"),
                      ("markdown_it.rules_inline.escape", "escape", "escape", "contracts.inline"),
                      ("markdown_it.rules_inline.link", "link", "link", "contracts.linkc"),
-                     ("markdown_it.rules_inline.image", "image", "image", "contracts.linkc")]
+                     ("markdown_it.rules_inline.image", "image", "image", "contracts.linkc"),
+                     ("markdown_it.rules_inline.autolink", "autolink", "autolink", "contracts.linkc")]
 
 
 def delim_contracts(state, cfg, doc):
